@@ -141,6 +141,43 @@ SnfOK(e) ==
           /\ Prod(os) = ExpIndex(e)
           /\ (e.grp => SameGroup(e.diag, os))
 
+(***************************************************************************)
+(* The Smith reduction as a PRESENTATION of the quotient: kept generators  *)
+(* gens[i] have coordinates q[i] (row i of the transformation matrix, the  *)
+(* driver reduces entry j modulo ds[j]), a removed generator p has the     *)
+(* coordinates of its substitution relation sum e*coords(l) (removed is    *)
+(* unwound last to first).  The map must send every input relation to 0 in *)
+(* every cyclic factor Z/ds[j], and the factors must multiply to the index *)
+(* known by construction.  Small groups only (plain integers).             *)
+(***************************************************************************)
+CapProd(sq) == FoldLeft(LAMBDA a, x : IF a > 40000 THEN 40001 ELSE a * x, 1, sq)
+
+\* coordinates of a combination [[label, e], ...] given the coordinates known so far (cm: function label -> sequence)
+Comb(rel, cm, ds) ==
+  [j \in 1..Len(ds) |->
+     FoldLeft(LAMBDA a, t : (a + ((t[2] % ds[j]) * cm[t[1]][j])) % ds[j], 0, rel)]
+
+RECURSIVE Unwind(_, _, _, _)
+Unwind(removed, k, cm, ds) ==
+  IF k = 0 THEN cm
+  ELSE LET p == removed[k][1]  rel == removed[k][2] IN
+       IF \A t \in 1..Len(rel) : rel[t][1] \in DOMAIN cm
+       THEN Unwind(removed, k - 1, cm @@ (p :> Comb(rel, cm, ds)), ds)
+       ELSE cm      \* a removed generator defined through one that has no coordinates yet: left undefined, rejected below
+
+SnfHomOK(e) ==
+  IF Panicked(e) THEN TRUE           \* the announced refusals of the index heuristics are judged on the "snf" events
+  ELSE
+  /\ e.wellformed /\ e.offdiag_zero
+  /\ e.hh = e.h
+  /\ \A j \in 1..Len(e.ds) : e.ds[j] >= 1 /\ e.ds[j] <= 32767
+  /\ CapProd(e.ds) = e.h
+  /\ LET m  == Len(e.ds)
+         c0 == [g \in {e.gens[i] : i \in 1..m} |-> e.q[CHOOSE i \in 1..m : e.gens[i] = g]]
+         cm == Unwind(e.removed, Len(e.removed), c0, e.ds)
+     IN /\ \A i \in 1..Len(e.labels) : e.labels[i] \in DOMAIN cm
+        /\ \A r \in 1..Len(e.rels) : \A j \in 1..m : Comb(e.rels[r], cm, e.ds)[j] = 0
+
 \* u[0] = 1 and u annihilates the sequence: coefficients n/2 .. n-1 of u(x) * seq(x) vanish modulo p
 BmOK(e) ==
   LET n == Len(e.seq) IN
@@ -159,6 +196,7 @@ StrictC19(e) ==
     [] e.op = "lattice_dense"  -> LatticeOK(e)
     [] e.op = "lattice_sparse" -> LatticeOK(e)
     [] e.op = "snf"            -> SnfOK(e)
+    [] e.op = "snf_hom"        -> SnfHomOK(e)
     [] e.op = "bm"             -> BmOK(e)
     [] e.op = "selftest"       -> SelfTestOK(e)
     [] OTHER -> FALSE
